@@ -30,6 +30,18 @@ CHECKS = {
    technique="exhaustive enumeration of a grammar of RFC 4884/4950 messages through the real receive path and packet views, plus systematic corruptions",
    text="{v4,v6} x {TE,DU} x parse modes x protocols x {compliant, legacy} x every RFC 4884 length attribute value that fits x all object lists up to length 2 (3 thorough) over 7 object shapes: views must return the original datagram and extension byte-exactly and recv_probe exactly the encoded objects; corruptions (every truncation, every value of every length octet): no panic, termination, containment and non-overlap by pointer arithmetic.",
    note="conformant MPLS stacks have >=1 member, S=1 on the last only; " + ASSUME_SIM, ref="3/C14"),
+ "C06": dict(cat="model_checking", engine="E1 (strategy level)",
+   technique="stateless deviation-bounded exhaustive exploration of the real Strategy::run/TracerState over an abstract Network; trace monitor oracle",
+   text="protocol{icmp,tcp} x first_ttl{1,2,5,30,253,254} x max_ttl{1,3,6,64,254} x max_inflight{1,2,3,24,255} x target distance{1,2,3,6,silent}, 3 rounds: all executions with <= 2 (3 thorough) deviations (delay, reorder, duplicate, loss, AddressInUse); a monitor independent of TracerState checks TTL order, max-ttl, no send after target found, established distance, in-flight window and at least one probe per round on the send/receive call trace.",
+   note="abstract Network (responses are Response values, packets are C01/C02's topic); virtual clock", ref="3/C06"),
+ "C07": dict(cat="model_checking", engine="E1/E3 (strategy level)",
+   technique="explicit walk of the (regime, round-start sequence, round size) graph by driving the real Strategy::run with TCP re-issue bursts; behavioural differential for the round-separation clause",
+   text="Every round size 1..=512 (and 513 for the capacity clause) from boundary initial sequences with a variable first round, constant-size walks through two wrap-arounds for every size, the Dublin/IPv6 regime for every probes-per-round value, wire-level Dublin/IPv6 payload lengths; monitor: consecutive, <65535, <=512 per round, next round = last+1 or initial; separation clause decided by delivering a previous-round sequence in the next round and comparing published rounds with an inert replacement.",
+   note="round sizes > 254 are produced by AddressInUse bursts at the Network seam; one open known finding (initial sequence 64000..64511)", ref="3/C07"),
+ "C08": dict(cat="model_checking", engine="E1 (strategy level)",
+   technique="stateless exhaustive exploration of environment answers (which response, how much virtual time) around every timing boundary; event-trace monitor",
+   text="40 (min,max,grace) settings in {0,T,2T,3T}^3 x 3 paths; at every receive the environment picks none/any pending response and a time advance in {T,0,1ns,T-1ns}; quick <=3 deviations over 2 rounds, thorough the full product of the first 10 choice points plus <=4 deviations over 3 rounds; monitor: publish iff the stated policy holds at the end of an iteration, never held beyond max+read-timeout, reason, next round starts at the publish instant.",
+   note="virtual clock via clock_gettime interposition; reason scoped as DESIGN.md 5.5", ref="3/C08"),
 }
 
 NOT_YET = {
